@@ -137,7 +137,7 @@ def check(ctx):
         decs = codec_calls(cu, DECODERS)
         if ctx.check(len(cmps) == 1, "byte-identity", nm + ":cmp_u8:one-compare", "cmp_u8 of %s does not perform exactly one comparison" % nm, where=where(cu)):
             b, t = cmps[0]
-            sides = [_through(prog, cu, leaf_origins(prog, cu, a, at=b, terminal_only=True)) for a in t["args"]]
+            sides = [_through(prog, cu, leaf_origins(prog, cu, a, at=b, terminal_only=True, opaque_index=True), opaque_index=True) for a in t["args"]]
             is_self = lambda s: bool(s) and all(x.kind == "param" and x.data == 1 and x.proj and x.proj[-1].endswith(".0") for x in s)
             is_other = lambda s: bool(s) and all(x.kind == "param" and x.data == 2 for x in s)
             if not decs:
@@ -157,13 +157,13 @@ def check(ctx):
     ctx.sample({"key_types": [short(k) for k in sorted(kts)], "int_pairs": n_pairs})
 
 
-def _through(prog, fn, os_, depth=0):
+def _through(prog, fn, os_, depth=0, opaque_index=False):
     """Follow Vec::as_slice / to_vec / deref style projections back to their receiver."""
     out = []
     for o in os_:
         if o.kind == "call" and depth < 6 and o.data.get("args") and (o.data.get("callee") or "").rsplit("::", 1)[-1] in (
                 "as_slice", "to_vec", "as_ref", "deref", "as_bytes", "borrow", "clone", "into_vec", "to_owned"):
-            out.extend(_through(prog, fn, leaf_origins(prog, fn, o.data["args"][0], at=o.block, terminal_only=True), depth + 1))
+            out.extend(_through(prog, fn, leaf_origins(prog, fn, o.data["args"][0], at=o.block, terminal_only=True, opaque_index=opaque_index), depth + 1, opaque_index))
         else:
             out.append(o)
     return out
